@@ -287,6 +287,62 @@ pub fn both_decode<T: Both>(b: &[u8]) -> Value {
     json!({"p":"run","native":n,"serde":s})
 }
 
+// ---- the shared types that borrow text from the input (&str and what contains it): the owned counterparts above say nothing about
+// the borrowing entry points of either codec.  The event has the shape of `both_report`'s; the type name is the owned counterpart's.
+pub trait ToAbs { fn ta(&self) -> Value; }
+impl ToAbs for &str { fn ta(&self) -> Value { json!({"k":"text","b":bytes(self.as_bytes())}) } }
+impl ToAbs for u8 { fn ta(&self) -> Value { crate::types::Abs::to_abs(self) } }
+impl<T: ToAbs> ToAbs for Option<T> { fn ta(&self) -> Value { match self { None => json!({"k":"none"}), Some(x) => json!({"k":"some","x":x.ta()}) } } }
+impl<A: ToAbs, B: ToAbs> ToAbs for (A, B) { fn ta(&self) -> Value { json!({"k":"seq","xs":[self.0.ta(), self.1.ta()]}) } }
+impl<T: ToAbs> ToAbs for Vec<T> { fn ta(&self) -> Value { json!({"k":"seq","xs":self.iter().map(|x| x.ta()).collect::<Vec<_>>()}) } }
+
+fn n_report<'b, T: minicbor::Decode<'b, ()> + ToAbs>(b: &'b [u8]) -> Value {
+    let mut d = minicbor::Decoder::new(b);
+    match d.decode::<T>() {
+        Ok(v) => json!({"p":"run","dec_ok":true,"dec":v.ta(),"pos":d.position()}),
+        Err(e) => json!({"p":"run","dec_ok":false,"cls":crate::abs::err_class(&e),"pos":d.position()})
+    }
+}
+fn s_report<'b, T: Deserialize<'b> + ToAbs>(b: &'b [u8]) -> Value {
+    let mut de = minicbor_serde::Deserializer::new(b);
+    let r = T::deserialize(&mut de);
+    let pos = de.decoder().position();
+    match r {
+        Ok(v) => json!({"p":"run","dec_ok":true,"dec":v.ta(),"pos":pos}),
+        Err(e) => json!({"p":"run","dec_ok":false,"cls":serr_class(&e),"pos":pos})
+    }
+}
+macro_rules! borrowed_shape {
+    ($ty:literal, $t:ty, $v:expr, $rng:expr, $sink:expr) => {{
+        let v: $t = $v;
+        let val = v.ta();
+        if let Ok(nb) = minicbor::to_vec(&v) {
+            let sb = ser(&v).unwrap_or_default();
+            $sink.distinct_inputs += 1;
+            let n_of_s = crate::ops::guarded(|| n_report::<$t>(&sb));
+            let s_of_n = crate::ops::guarded(|| s_report::<$t>(&nb));
+            let alt = crate::cbgen::reframe($rng, &nb);
+            let n_alt = crate::ops::guarded(|| n_report::<$t>(&alt));
+            let s_alt = crate::ops::guarded(|| s_report::<$t>(&alt));
+            $sink.put(json!({"fam":"both","name":"x","ty":$ty,"borrowed":true,"val":val,"nb":bytes(&nb),"sb":bytes(&sb),"n_of_s":n_of_s,"s_of_n":s_of_n,
+                             "alt":bytes(&alt),"n_alt":n_alt,"s_alt":s_alt}));
+        }
+    }};
+}
+pub fn both_borrowed(rng: &mut StdRng, sink: &mut crate::gen::Sink, n: usize) {
+    use crate::types::Abs;
+    for _ in 0..n {
+        let s = String::gen(rng, 0);
+        borrowed_shape!("string", &str, s.as_str(), rng, sink);
+        let o = Option::<String>::gen(rng, 0);
+        borrowed_shape!("optstring", Option<&str>, o.as_deref(), rng, sink);
+        let t = <(u8, String)>::gen(rng, 0);
+        borrowed_shape!("tup2", (u8, &str), (t.0, t.1.as_str()), rng, sink);
+        let v = Vec::<String>::gen(rng, 0);
+        borrowed_shape!("vecstring", Vec<&str>, v.iter().map(|x| x.as_str()).collect(), rng, sink);
+    }
+}
+
 macro_rules! shared {
     ($($key:literal => $t:ty),* $(,)?) => {
         pub fn both_named(name: &str, b: &[u8]) -> Option<Value> {
